@@ -372,6 +372,10 @@ func main() {
 		bigKeysetSection(o, fork(rng, "big"))
 	}
 	negativeOffsetProbe(o)
+	if !hlib.Pre() {
+		// huge segments (4 MiB … 32 MiB and more) against the independent Go reference of the format, both directions
+		hugeSection(o)
+	}
 }
 
 // streamCase: one key, all boundary plaintext lengths in both directions, manipulations and I/O faults.
